@@ -27,6 +27,8 @@ const (
 	c20MarkCbEnd   = 11
 	c20MarkCbMid   = 12 // only in the recycle-under-OnData scenario: a pause between Peek and ReadBytes
 	c20MarkFlush   = 13 // a user Flush begins (WriteBytes of one byte, then Flush)
+	c20MarkNotify  = 16 // asyncNotify(s.recvNotifyCh) (instrumented copy of stream.go, see props/C20.py)
+	c20RegSel      = -6 // readMore's select: Lock a=1 took the recvNotifyCh token, a=2 closeNotifyCh closed; Busy: parked
 	// value of streamLocalHalfClosed (the state Close() moves an open stream to while a callback goroutine
 	// runs).  Kept numeric so that this harness also builds against a tree without that constant; the value
 	// is pinned by the model comparison (the CAS in Close() logs it).
@@ -45,7 +47,13 @@ type c20Case struct {
 	MidYield bool        `json:"mid_yield"` // OnData pauses between Peek and ReadBytes and then checks that its view is still owned
 	Script   [][2]int    `json:"script"`    // per OnData invocation: bytes to consume, number of Close() calls inside it
 	Sync     []int       `json:"sync"`      // synchronous reads by the user BEFORE SetCallbacks: ReadBytes(k), k = 0: Peek
-	Deadlock bool        `json:"deadlock"`  // every remaining thread spins in a cooperative wg.Wait
+	Needs    []int       `json:"needs"`     // per OnData invocation: it starts with a blocking ReadBytes(n) (0: none); n > offered: it parks in readMore
+	Picks    []bool      `json:"picks"`     // what a select takes when recvNotifyCh and closeNotifyCh are both ready (true: closeNotifyCh)
+	Deadlock bool        `json:"deadlock"`  // every remaining thread spins in a cooperative wg.Wait / is parked in readMore's select
+	DeadSel  bool        `json:"dead_sel"`  // ... and one of them is an OnData invocation parked in readMore's select
+	DeadWg   bool        `json:"dead_wg"`   // ... and one of them is a close() in asyncGoroutineWg.Wait
+	ParkedOK bool        `json:"parked_ok"` // the run ended with an OnData parked for bytes the peer never sent (legitimate)
+	ReadErr  []string    `json:"read_err"`  // error class of each blocking read inside OnData that failed
 	Ups      [][]int     `json:"ups"`       // user threads: each flushes these one-byte messages, one Flush per byte
 	InFl     []int       `json:"infl"`      // per OnData invocation: Flush calls made inside it after its Close() calls
 	Ures     [][]bool    `json:"ures"`      // per user thread (the Flushes made inside OnData last): did Flush return nil
@@ -72,6 +80,73 @@ func c20Walk(i int) {
 	}
 	vsPre()
 	vs.log = append(vs.log, vsEvent{vs.cur.id, c20KWalk, c20RegWalk, 0, int64(i), 0, 0})
+}
+
+// c20Notify replaces asyncNotify(s.recvNotifyCh) in the instrumented copy of stream.go: the token that wakes a parked
+// reader is a scheduling point with an event of its own.
+func c20Notify(ch chan struct{}) {
+	c20Mark(c20MarkNotify)
+	asyncNotify(ch)
+}
+
+var c20Picks []bool // the adversary's choices for selects that find both channels ready (current case)
+
+// c20Select replaces readMore's select in the instrumented copy of stream.go.  Under the scheduler it is a scheduling
+// point whose outcome (which channel was ready; parked) is part of the access trace; the caller runs the
+// corresponding case body.  0: a token was taken from recvNotifyCh, 1: closeNotifyCh is closed, 2: the deadline.
+func c20Select(rc chan struct{}, cc chan struct{}, tc <-chan time.Time) int {
+	if !vs.active || vs.cur == nil {
+		select {
+		case <-rc:
+			return 0
+		case <-cc:
+			return 1
+		case <-tc:
+			return 2
+		}
+	}
+	for {
+		if !vs.active {
+			// the controlled run is over (c20Release): wait for real
+			select {
+			case <-rc:
+				return 0
+			case <-cc:
+				return 1
+			case <-tc:
+				return 2
+			}
+		}
+		vsPre()
+		r := len(rc) > 0
+		c := false
+		select {
+		case <-cc:
+			c = true
+		default:
+		}
+		if r && c {
+			pick := false
+			if len(c20Picks) > 0 {
+				pick, c20Picks = c20Picks[0], c20Picks[1:]
+			}
+			if pick {
+				r = false
+			} else {
+				c = false
+			}
+		}
+		if r {
+			<-rc
+			vs.log = append(vs.log, vsEvent{vs.cur.id, vsKLock, c20RegSel, 0, 1, 0, 0})
+			return 0
+		}
+		if c {
+			vs.log = append(vs.log, vsEvent{vs.cur.id, vsKLock, c20RegSel, 0, 2, 0, 0})
+			return 1
+		}
+		vs.log = append(vs.log, vsEvent{vs.cur.id, vsKBusy, c20RegSel, 0, 0, 0, 0})
+	}
 }
 
 func c20Mark(code int64) {
@@ -105,8 +180,11 @@ type c20Cb struct {
 	local       int
 	remote      int
 	step        *int
-	limit       int // bytes that arrive in this case: nothing longer can legitimately be offered
-	overrun     int // largest r.Len() seen beyond the limit (0: none)
+	needs       []int
+	readErr     []string // error class of each blocking read that failed
+	took        []int    // bytes consumed by each finished invocation
+	limit       int      // bytes that arrive in this case: nothing longer can legitimately be offered
+	overrun     int      // largest r.Len() seen beyond the limit (0: none)
 }
 
 // c20See bounds what one invocation looks at: a mutated tree can link the whole free list into recvBuf (megabytes);
@@ -124,6 +202,8 @@ func (cb *c20Cb) c20See(n int) int {
 
 func (cb *c20Cb) OnData(r BufferReader) {
 	c20Mark(c20MarkCbBegin)
+	before := len(cb.consumed)
+	defer func() { cb.took = append(cb.took, len(cb.consumed)-before) }()
 	cb.running++
 	if cb.running > 1 {
 		cb.overlap = true
@@ -157,6 +237,20 @@ func (cb *c20Cb) OnData(r BufferReader) {
 	}
 	if k > n {
 		k = n
+	}
+	if idx := len(cb.offers) - 1; idx < len(cb.needs) && cb.needs[idx] > n && cb.overrun == 0 {
+		// the invocation starts with a blocking read of more than it was offered (a length-prefixed message whose
+		// body has not arrived yet): ReadBytes -> readMore parks on recvNotifyCh / closeNotifyCh
+		k = 0
+		b, err := r.ReadBytes(cb.needs[idx])
+		if err != nil {
+			cb.readErr = append(cb.readErr, c20ErrClass(err))
+		} else {
+			for _, x := range b {
+				cb.consumed = append(cb.consumed, int(x))
+			}
+			r.ReleasePreviousRead()
+		}
 	}
 	if k > 0 {
 		b, _ := r.ReadBytes(k)
@@ -211,8 +305,11 @@ func (e *c20Env) close() {
 // after a failed case the shared memory of the pair may be damaged (a double recycle, a chain linked into the free
 // list): the following cases get a fresh pair, so that one defect is not reported again as unrelated failures
 func (e *c20Env) renewAfter(c c20Case) {
-	if len(c.Oracle) > 0 || len(c.Oracle10) > 0 || !c.Finished {
+	if len(c.Oracle) > 0 || len(c.Oracle10) > 0 || (!c.Finished && !c.ParkedOK) {
 		e.close()
+		// the sessions' own goroutines close what is left in their tables: let them finish before the next case
+		// starts (instrumented stream.go code must not run beside the scheduler)
+		time.Sleep(50 * time.Millisecond)
 		*e = *c20NewEnv()
 	}
 }
@@ -259,7 +356,8 @@ func c20Run(env *c20Env, c c20Case, mk func() vsChooser, maxSteps int) c20Case {
 	id := s.id
 	stepNo := 0
 	env.offs = nil
-	cb := &c20Cb{stream: s, script: c.Script, step: &stepNo, midYield: c.MidYield, bm: env.client.bufferManager, offs: &env.offs}
+	cb := &c20Cb{stream: s, script: c.Script, step: &stepNo, midYield: c.MidYield, bm: env.client.bufferManager, offs: &env.offs, needs: c.Needs}
+	c20Picks = append([]bool{}, c.Picks...)
 	for _, e := range c.Inb {
 		cb.limit += len(e)
 	}
@@ -421,11 +519,19 @@ func c20Run(env *c20Env, c c20Case, mk func() vsChooser, maxSteps int) c20Case {
 			}
 		}
 		for _, a := range vsAlive(vs.threads) {
-			if e := lastOf[a]; e == nil || e.Kind != vsKBusy {
+			e := lastOf[a]
+			if e == nil || e.Kind != vsKBusy {
 				dead = false
+			} else if e.Reg == c20RegSel {
+				c.DeadSel = true
+			} else if e.Reg == -3 {
+				c.DeadWg = true
 			}
 		}
 		c.Deadlock = dead
+		if !dead {
+			c.DeadSel, c.DeadWg = false, false
+		}
 		if !dead {
 			c20Finish(20000) // bounded: a run that does not end is a finding, not something to wait for
 		}
@@ -433,6 +539,7 @@ func c20Run(env *c20Env, c c20Case, mk func() vsChooser, maxSteps int) c20Case {
 	vs.active = false
 	c.Steps = steps
 	c.Finished = finished
+	c.ReadErr = cb.readErr
 	c.Offers = cb.offers
 	if c.Offers == nil {
 		c.Offers = [][]int{}
@@ -473,7 +580,12 @@ func c20Run(env *c20Env, c c20Case, mk func() vsChooser, maxSteps int) c20Case {
 		c.Feat = append(c.Feat, fmt.Sprintf("SESSION-DOWN(server closed=%v, client closed=%v)", env.server.IsClosed(), env.client.IsClosed()))
 	}
 	c.Final = []int64{int64(atomic.LoadUint32(&s.state)), int64(atomic.LoadUint32(&s.callbackInProcess)),
-		int64(atomic.LoadUint32(&s.callbackCloseState)), inTable, int64(cb.local), int64(cb.remote), nsent, ndata}
+		int64(atomic.LoadUint32(&s.callbackCloseState)), inTable, int64(cb.local), int64(cb.remote), nsent, ndata, 0}
+	select {
+	case <-s.closeNotifyCh:
+		c.Final[8] = 1 // closeNotifyCh is closed: calls pending on the stream have been woken
+	default:
+	}
 	c.Recv = []int{}
 	if n := cb.c20See(s.recvBuf.Len()); n > 0 {
 		p, _ := s.recvBuf.Peek(n)
@@ -502,8 +614,16 @@ func c20Run(env *c20Env, c c20Case, mk func() vsChooser, maxSteps int) c20Case {
 
 	// ---------------- C20 oracle (independent of the model) ----------------
 	or := map[string]bool{}
-	if !finished {
-		or["run did not reach quiescence within the step bound"] = true
+	// an OnData parked for bytes the peer never sent is legitimate: the stream is open, everything that arrived has
+	// been handed to it (pendingData empty, no token left), and only it is still alive
+	c.ParkedOK = c.Deadlock && c.DeadSel && !c.DeadWg && finalState == uint32(streamOpened) && len(c.Pend) == 0 &&
+		len(s.recvNotifyCh) == 0 && c.Final[8] == 0
+	if !finished && !c.ParkedOK {
+		if c.Deadlock && c.DeadSel && !c.DeadWg {
+			or[fmt.Sprintf("no-strand: an OnData invocation stays parked in a blocking read (readMore) although it would be resumable: %d byte(s) that arrived since sit in pendingData, token in recvNotifyCh: %d, closeNotifyCh closed: %d, state %d — nothing will ever wake it (callbackInProcess = 1, no goroutine will be started for the stream)", len(c.Pend), len(s.recvNotifyCh), c.Final[8], finalState)] = true
+		} else if !c.Deadlock || !c.DeadWg {
+			or["run did not reach quiescence within the step bound"] = true
+		}
 	}
 	if cb.viewFreed {
 		or["zero-copy: a buffer whose bytes OnData was still holding (Peek, nothing released) was returned to the free list by the event loop's closed path (fillDataToReadBuffer: recvBuf.recycle) while OnData was running"] = true
@@ -555,12 +675,9 @@ func c20Run(env *c20Env, c c20Case, mk func() vsChooser, maxSteps int) c20Case {
 			}
 		}
 		// how much did this invocation consume
-		kk := len(off)
-		if k < len(c.Script) {
-			kk = c.Script[k][0]
-			if kk > len(off) {
-				kk = len(off)
-			}
+		kk := 0
+		if k < len(cb.took) {
+			kk = cb.took[k]
 		}
 		consumedBefore += kk
 	}
@@ -639,7 +756,13 @@ func c20Run(env *c20Env, c c20Case, mk func() vsChooser, maxSteps int) c20Case {
 	if finished && finalState == uint32(streamClosed) && inTable == 0 && (len(c.Recv) > 0 || len(c.Pend) > 0) {
 		o10["SIG:C10:late-arrival-moved-into-recvBuf-after-clean-is-never-recycled|residue: the stream is closed, cleaned and out of the table, yet recvBuf / pendingData still hold received bytes (their share-memory slices are never recycled)"] = true
 	}
-	if c.Deadlock {
+	if finished && finalState != uint32(streamOpened) && c.Final[8] == 0 {
+		o10["SIG:C10:close-does-not-wake-pending-calls|wake: the stream has left `opened` and every thread has finished, but closeNotifyCh is not closed: calls pending on the stream (a read parked in readMore, a Flush in its queue-full retry loop) are never woken and never fail"] = true
+	}
+	if c.Deadlock && c.DeadWg && c.DeadSel {
+		o10["SIG:C10:close-does-not-wake-pending-calls|a Close() never returned: close() waits for the callback goroutine, whose OnData is parked in a read that only closeNotifyCh would wake"] = true
+	}
+	if c.Deadlock && c.DeadWg && !c.DeadSel {
 		o10["SIG:C10:Close-inside-OnData-waits-for-its-own-goroutine|a Close() never returned: close() waits on asyncGoroutineWg, which only the waiting thread(s) can release; the stream stays in the table, no close callback, peer not told"] = true
 	}
 	if cb.local+cb.remote > 1 {
@@ -730,13 +853,34 @@ func c20Run(env *c20Env, c c20Case, mk func() vsChooser, maxSteps int) c20Case {
 		}
 	}
 	for _, st := range steps {
-		if st.Ev != nil && st.Ev.Kind == vsKBusy {
+		if st.Ev != nil && st.Ev.Kind == vsKBusy && st.Ev.Reg != c20RegSel {
 			c.Feat = append(c.Feat, "wg-wait-blocked")
 			break
 		}
 	}
+	selSeen := map[string]bool{}
+	for _, st := range steps {
+		if st.Ev != nil && st.Ev.Reg == c20RegSel {
+			f := "OnData-parked-in-read"
+			if st.Ev.Kind == vsKLock && st.Ev.A == 1 {
+				f = "parked-read-resumed-by-token"
+			} else if st.Ev.Kind == vsKLock {
+				f = "parked-read-woken-by-close"
+			}
+			if !selSeen[f] {
+				selSeen[f] = true
+				c.Feat = append(c.Feat, f)
+			}
+		}
+	}
+	if c.ParkedOK {
+		c.Feat = append(c.Feat, "parked-for-bytes-the-peer-never-sent")
+	}
 	// leave the stream closed and clean (uncontrolled)
 	_ = s.Close()
+	if c.DeadSel {
+		c20Release(steps)
+	}
 	return c
 }
 
@@ -752,12 +896,39 @@ func c20Finish(n int) {
 	}
 }
 
+// c20Release lets the threads that the run left parked in readMore's select (their last step found nothing ready)
+// continue WITHOUT the scheduler, after the stream has been closed: the close wakes them, OnData returns, the
+// goroutine finishes.  Nothing instrumented may still be running when the next case starts (it would take
+// scheduling points of that case).  Threads blocked in a cooperative wg.Wait are not released (they would spin).
+func c20Release(steps []vsStepRec) {
+	lastOf := map[int]*vsEvent{}
+	for _, st := range steps {
+		if st.Ev != nil {
+			ev := *st.Ev
+			lastOf[st.Tid] = &ev
+		}
+	}
+	for _, a := range vsAlive(vs.threads) {
+		if e := lastOf[a]; e != nil && e.Kind == vsKBusy && e.Reg == c20RegSel {
+			t := vs.threads[a]
+			select {
+			case t.grant <- struct{}{}:
+				select {
+				case <-vs.back: // the thread ran to its end
+				case <-time.After(2 * time.Second):
+				}
+			case <-time.After(200 * time.Millisecond):
+			}
+		}
+	}
+}
+
 // c20Budget stops a family early once enough of its cases have failed: the check has its concrete failing inputs,
 // more of the same only costs time (a mutated tree can make every case run into the step bound).
 type c20Budget struct{ bad, limit int }
 
 func (b *c20Budget) note(c c20Case) {
-	if len(c.Oracle) > 0 || len(c.Oracle10) > 0 || !c.Finished {
+	if len(c.Oracle) > 0 || len(c.Oracle10) > 0 || (!c.Finished && !c.ParkedOK) {
 		b.bad++
 	}
 }
@@ -775,6 +946,39 @@ func c20PrefixChooser(prefix []int) vsChooser {
 			}
 		}
 		// avoid spinning on a blocked wg.Wait
+		if lastEv != nil && lastEv.Kind == vsKBusy && len(al) > 1 {
+			for _, a := range al {
+				if a != last {
+					return a
+				}
+			}
+		}
+		return al[0]
+	}
+}
+
+// the event loop runs until thread g exists (the goroutine it spawns), g runs until it is parked in readMore's
+// select, then the remaining threads run lowest id first (a parked / waiting thread is not polled while another can run)
+func c20ParkFirstChooser(g int) vsChooser {
+	parked := false
+	return func(al []int, all int, last int, lastEv *vsEvent) int {
+		alive := func(t int) bool {
+			for _, a := range al {
+				if a == t {
+					return true
+				}
+			}
+			return false
+		}
+		if !parked {
+			if last == g && lastEv != nil && lastEv.Kind == vsKBusy && lastEv.Reg == c20RegSel {
+				parked = true
+			} else if all > g && alive(g) {
+				return g
+			} else if all <= g && alive(0) {
+				return 0
+			}
+		}
 		if lastEv != nil && lastEv.Kind == vsKBusy && len(al) > 1 {
 			for _, a := range al {
 				if a != last {
@@ -1054,11 +1258,78 @@ func TestVerif_C20(t *testing.T) {
 		id++
 		late++
 	}
+	// ---- OnData starts with a blocking read of more than it was offered (a length-prefixed message flushed in parts):
+	// the invocation parks in readMore with callbackInProcess = 1; what arrives while it is parked must reach it
+	// without further traffic (the recvNotifyCh token is the only hand-off), and a close must wake it ----
+	blocking := 0
+	brd := func(k int) c20Case {
+		c := c20Case{Kind: "blocking-read", Cmp: true, Cb0: true, Inb: [][]int{{3}, {7, 8, 9}}, Needs: []int{4}, Script: [][2]int{{0, 0}}}
+		switch k % 4 {
+		case 1: // the body arrives in two parts
+			c.Inb = [][]int{{3}, {7}, {8, 9}}
+		case 2: // two length-prefixed messages, each in two flushes
+			c.Inb = [][]int{{2}, {5, 6}, {1}, {4}}
+			c.Needs = []int{3, 2}
+			c.Script = [][2]int{{0, 0}, {0, 0}}
+		case 3: // the body never arrives; the peer closes instead: the read must fail, OnData must return
+			c.Inb = [][]int{{3}, {}}
+		}
+		return c
+	}
+	for k := 0; k < 4; k++ { // deterministic: the invocation is parked before anything else arrives
+		c := brd(k)
+		c.ID, c.Strat = id, "park-first"
+		run(c, func() vsChooser { return c20ParkFirstChooser(1) }, 3000)
+		id++
+		blocking++
+	}
+	for x := 0; x < 2; x++ {
+		for k := 0; k <= 15; k++ {
+			c := brd(k)
+			c.ID = id
+			c.Strat = fmt.Sprintf("systematic-preempt(t%d@%d)", x, k)
+			x, k := x, k
+			run(c, func() vsChooser { return vsPreemptChooser(newVrand(seed+uint64(id)), x, k/4+6) }, 3000)
+			id++
+			blocking++
+		}
+	}
+	for k := 0; k < 10+n/8; k++ {
+		c := c20Case{ID: id, Kind: "blocking-read", Cmp: true, Cb0: true}
+		c.Inb = c20GenInb(r, 2+r.intn(3), 15)
+		total := 0
+		for _, e := range c.Inb {
+			total += len(e)
+		}
+		for j := 0; j < 1+r.intn(2); j++ {
+			c.Needs = append(c.Needs, 1+r.intn(total+1)) // sometimes more than will ever arrive: parked for good (legitimate)
+			c.Script = append(c.Script, [2]int{0, 0})
+		}
+		if r.chance(35) {
+			c.NCl = 1 // a Close() while the invocation is parked must wake it
+			if r.chance(30) {
+				c.Script[0][1] = 1
+			}
+		}
+		for j := 0; j < 3; j++ {
+			c.Picks = append(c.Picks, r.chance(50))
+		}
+		if k%3 == 0 {
+			c.Strat = "park-first"
+			run(c, func() vsChooser { return c20ParkFirstChooser(1 + c.NCl) }, 3000)
+		} else {
+			strat, mk := c20Strategy(r, id, 2+c.NCl)
+			c.Strat = strat
+			run(c, mk, 3000)
+		}
+		id++
+		blocking++
+	}
 	// ---- Close() that read callbackInProcess = 0, a goroutine spawned right after, the next arrival sees closed ----
 	run(c20Case{ID: id, Kind: "recycle-under-ondata", Strat: "fixed-prefix", Cmp: false, Cb0: true, NCl: 1, MidYield: true,
 		Inb: [][]int{{1, 2, 3}, {4}}, Script: [][2]int{{3, 0}}},
 		func() vsChooser {
-			return c20PrefixChooser([]int{1, 1, 0, 0, 0, 0, 0, 0, 2, 2, 2, 2, 2, 1, 1, 1, 0, 0, 0, 0, 0, 0, 0, 2})
+			return c20PrefixChooser([]int{1, 1, 0, 0, 0, 0, 0, 0, 0, 2, 2, 2, 2, 2, 1, 1, 1, 0, 0, 0, 0, 0, 0, 0, 2})
 		}, 3000)
 	id++
 	for k := 0; k < n/10; k++ {
@@ -1071,7 +1342,7 @@ func TestVerif_C20(t *testing.T) {
 		id++
 		late++
 	}
-	t.Logf("emitted %d cases (%d systematic, %d exhaustive complete=%v, %d late-callbacks)", id, sys, exh, complete, late)
+	t.Logf("emitted %d cases (%d systematic, %d exhaustive complete=%v, %d late-callbacks, %d blocking-read)", id, sys, exh, complete, late, blocking)
 	o.emit(map[string]interface{}{"summary": true, "exhaustive": exh, "exhaustive_complete": complete, "stopped_early_after_failures": budget.spent()})
 }
 
@@ -1089,6 +1360,8 @@ type c20tCb struct {
 	done     chan struct{}
 	total    uint32
 	finished bool
+	framed   bool  // OnData reads header (4 bytes: the message number) and body with blocking reads
+	parks    int32 // blocking reads that found less than they asked for
 }
 
 func (c *c20tCb) OnData(r BufferReader) {
@@ -1104,12 +1377,41 @@ func (c *c20tCb) OnData(r BufferReader) {
 	if n == 0 {
 		return
 	}
+	if c.framed {
+		// a length-prefixed protocol: read the header, then the body, each with a blocking read — when the sender
+		// flushes them separately the read parks in readMore inside this invocation until the rest arrives
+		for r.Len() > 0 {
+			if r.Len() < 4 {
+				atomic.AddInt32(&c.parks, 1)
+			}
+			h, err := r.ReadBytes(4)
+			if err != nil {
+				return
+			}
+			c.buf = append(c.buf, h...)
+			if r.Len() < c.msgLen-4 {
+				atomic.AddInt32(&c.parks, 1)
+			}
+			b, err := r.ReadBytes(c.msgLen - 4)
+			if err != nil {
+				return
+			}
+			c.buf = append(c.buf, b...)
+			r.ReleasePreviousRead()
+			c.check()
+		}
+		return
+	}
 	b, err := r.ReadBytes(n)
 	if err != nil {
 		return
 	}
 	c.buf = append(c.buf, b...)
 	r.ReleasePreviousRead()
+	c.check()
+}
+
+func (c *c20tCb) check() {
 	for len(c.buf) >= c.msgLen {
 		m := c.buf[:c.msgLen]
 		seq := uint32(m[0])<<24 | uint32(m[1])<<16 | uint32(m[2])<<8 | uint32(m[3])
@@ -1143,6 +1445,8 @@ type c20tCase struct {
 	Pause   int      `json:"pause_every"`
 	Got     uint32   `json:"got"`
 	Calls   int      `json:"calls"`
+	Framed  bool     `json:"framed"` // header and body flushed separately, OnData reads them with blocking reads
+	Parks   int32    `json:"parks"`  // blocking reads inside OnData that had to wait
 	Oracle  []string `json:"oracle"`
 	Skipped string   `json:"skipped"`
 }
@@ -1155,7 +1459,12 @@ func TestVerif_C20T(t *testing.T) {
 	r := newVrand(seed ^ 0xC20)
 	for id := 0; id < rounds; id++ {
 		c := c20tCase{ID: id, MsgLen: []int{5000, 9000, 13000, 700}[r.intn(4)], N: 1500 + r.intn(1500), Pause: 2 + r.intn(6)}
-		cb := &c20tCb{msgLen: c.MsgLen, pauseAt: c.Pause, done: make(chan struct{}), total: uint32(c.N)}
+		if id%2 == 1 {
+			// "OnData reads a length-prefixed message that arrives in two flushes": the callback parks in its read,
+			// the second flush must reach it without any further traffic
+			c.Framed, c.MsgLen, c.N, c.Pause = true, []int{24, 200, 1500}[r.intn(3)], 300+r.intn(300), 0
+		}
+		cb := &c20tCb{msgLen: c.MsgLen, pauseAt: c.Pause, done: make(chan struct{}), total: uint32(c.N), framed: c.Framed}
 		conf := testConf()
 		conf.InitializeTimeout = 30 * time.Second
 		cconn, sconn := testConn()
@@ -1188,20 +1497,29 @@ func TestVerif_C20T(t *testing.T) {
 			for i := 4; i < c.MsgLen; i++ {
 				msg[i] = byte(seq + uint32(i))
 			}
-			for try := 0; ; try++ {
-				if _, err := cs.BufferWriter().WriteBytes(msg); err != nil {
-					sendErr = err.Error()
-					break
+			parts := [][]byte{msg}
+			if c.Framed {
+				parts = [][]byte{msg[:4], msg[4:]}
+			}
+			for pi, part := range parts {
+				if pi > 0 {
+					time.Sleep(time.Duration(20+r.intn(200)) * time.Microsecond) // let the receiver park on the header
 				}
-				err := cs.Flush(false)
-				if err == nil {
-					break
+				for try := 0; sendErr == ""; try++ {
+					if _, err := cs.BufferWriter().WriteBytes(part); err != nil {
+						sendErr = err.Error()
+						break
+					}
+					err := cs.Flush(false)
+					if err == nil {
+						break
+					}
+					if try > 2000 {
+						sendErr = err.Error()
+						break
+					}
+					time.Sleep(100 * time.Microsecond) // queue full / no buffer: the receiver is behind
 				}
-				if try > 2000 {
-					sendErr = err.Error()
-					break
-				}
-				time.Sleep(100 * time.Microsecond) // queue full / no buffer: the receiver is behind
 			}
 		}
 		if sendErr != "" {
@@ -1213,7 +1531,7 @@ func TestVerif_C20T(t *testing.T) {
 				c.Oracle = append(c.Oracle, fmt.Sprintf("no-strand: only %d of %d messages reached OnData within 8 s although nothing more is in flight", cb.next, c.N))
 			}
 		}
-		c.Got, c.Calls = cb.next, cb.calls
+		c.Got, c.Calls, c.Parks = cb.next, cb.calls, atomic.LoadInt32(&cb.parks)
 		if cb.bad != "" {
 			c.Oracle = append(c.Oracle, "order/once: "+cb.bad)
 		}
